@@ -1,9 +1,8 @@
-"""Shared machinery of the C12 / C13 checks: translator step, Coq build of coq/Eval + coq/C12 +
-coq/C13 (these files are not yet in coq/_CoqProject, so they are compiled here with coqc in
-dependency order, make-style), model build, case generators."""
+"""Shared machinery of the C12 / C13 checks: the translator step (regenerates coq/Eval/Gen_*.v from the
+evaluator sources; files are written only when their content changes), the framework calls
+(make of the proof modules, obligations, driver, extracted model) and the case generators."""
 import os
 import re
-import subprocess
 import sys
 
 import vlib
@@ -11,11 +10,10 @@ import vlib
 ROOT = vlib.ROOT
 COQ = vlib.COQ
 
-# dependency order
-EVAL_MODEL = ["Eval/EvalTerm.v", "Eval/Gen_EvalRules.v", "Eval/Gen_LambdaRules.v", "Eval/EvalModel.v",
-              "Eval/EvalFloat.v", "Eval/LambdaModel.v", "Eval/EvalRun.v"]
-EVAL_PROOFS = ["Eval/EvalIdeal.v", "Eval/EvalSpec.v", "Eval/TableProofs.v", "Eval/EvalProofs.v", "Eval/AgreeProofs.v",
-               "Eval/LambdaProofs.v", "Eval/ReinitProofs.v", "Eval/Witnesses.v"]
+# proof modules built by `make` (the shared Makefile resolves their dependencies: model files, Gen_*.v)
+C12_PROOF_MODULES = ["Eval/TableProofs.vo", "Eval/AgreeProofs.vo", "Eval/Witnesses.vo"]
+C13_PROOF_MODULES = ["Eval/TableProofs.vo", "Eval/AgreeProofs.vo", "Eval/LambdaProofs.vo", "Eval/ReinitProofs.vo",
+                     "Eval/Witnesses.vo"]
 C12_OBLIGATIONS = ["C12/P_evalrule_ideal.v", "C12/P_tables_cover_spec.v", "C12/P_dispatch_agree.v",
                    "C12/P_dispatch_agree_sem.v", "C12/P_nonvacuous.v"]
 C13_OBLIGATIONS = ["C13/P_lambda_rules_ideal.v", "C13/P_lambda_rules_agree_eval.v", "C13/P_lambda_agree_sem.v",
@@ -24,15 +22,10 @@ C13_OBLIGATIONS = ["C13/P_lambda_rules_ideal.v", "C13/P_lambda_rules_agree_eval.
                    "C13/P_piecewise_unrepaired_refuted.v", "C13/P_nonvacuous.v"]
 
 
-def existing(files):
-    return [f for f in files if os.path.exists(os.path.join(COQ, f))]
-
-
 def run_translator(ctx):
     env = dict(os.environ)
     env["VERIF_REPO"] = vlib.REPO
-    with vlib.Lock(os.path.join(vlib.WORK, "eval-coq.lock")):
-        rc, out = vlib.sh([sys.executable, os.path.join(ROOT, "translators", "tr_evalrules.py")], env=env, timeout=300)
+    rc, out = vlib.sh([sys.executable, os.path.join(ROOT, "translators", "tr_evalrules.py")], env=env, timeout=300)
     if rc != 0:
         ctx.broken.append({"kind": "translator", "name": "tr_evalrules",
                            "detail": "the evaluator source no longer has the recognised shape:\n" + out[-2500:]})
@@ -43,76 +36,8 @@ def run_translator(ctx):
     return True
 
 
-def coq_requires(vfile):
-    txt = vlib.strip_coq_comments(open(vfile).read())
-    deps = []
-    for m in re.finditer(r"From\s+SE\s+Require\s+(?:Import\s+|Export\s+)?(.*?)\.(?=\s|$)", txt, re.S):
-        for mod in m.group(1).split():
-            deps.append(mod.replace(".", "/") + ".v")
-    return deps
-
-
-def build_coq(ctx, files, record_as=None):
-    """compile (in the given order) every file whose .vo is older than the source or than the .vo of
-    one of its SE dependencies.  Returns the list of files that failed."""
-    failed = []
-    with vlib.Lock(os.path.join(vlib.WORK, "eval-coq.lock")):
-        for f in files:
-            src = os.path.join(COQ, f)
-            vo = src[:-2] + ".vo"
-            deps = [os.path.join(COQ, d[:-2] + ".vo") for d in coq_requires(src)]
-            if any(os.path.join(COQ, d) for d in []):
-                pass
-            stale = (not os.path.exists(vo)) or os.path.getmtime(vo) < os.path.getmtime(src) or any(
-                os.path.exists(d) and os.path.getmtime(d) > os.path.getmtime(vo) for d in deps)
-            if any(os.path.relpath(d, COQ)[:-3] + ".v" in failed for d in deps):
-                failed.append(f)
-                if os.path.exists(vo):
-                    os.remove(vo)
-                continue
-            if not stale:
-                continue
-            rc, out = vlib.sh(["timeout", "900", "coqc", "-Q", ".", "SE", "-w", "-notation-overridden", f], cwd=COQ, timeout=930)
-            if rc != 0:
-                failed.append(f)
-                if os.path.exists(vo):
-                    os.remove(vo)
-                ctx.broken.append({"kind": record_as or "proof", "name": f, "detail": out[-2500:]})
-    return failed
-
-
-def build_model(ctx):
-    """like Ctx.build_model, without the make step (the Eval files are compiled by build_coq)"""
-    d = os.path.join(vlib.WORK, "extract", "EVAL" + vlib.TAG)
-    os.makedirs(d, exist_ok=True)
-    exe = os.path.join(d, "model")
-    ev = os.path.join(COQ, "Eval/Extract.v")
-    srcs = [ev, os.path.join(ROOT, "ocaml", "eval_main.ml"), os.path.join(ROOT, "ocaml", "expr_io.ml")] + \
-        [os.path.join(COQ, f) for f in EVAL_MODEL] + [os.path.join(COQ, f[:-2] + ".vo") for f in EVAL_MODEL]
-    with vlib.Lock(os.path.join(d, ".lock")):
-        if any(not os.path.exists(s) for s in srcs):
-            ctx.broken.append({"kind": "correspondence", "name": "model EVAL", "detail": "model does not compile"})
-            return None
-        if os.path.exists(exe) and all(os.path.getmtime(s) <= os.path.getmtime(exe) for s in srcs):
-            return exe
-        rc, out = vlib.sh(["coqc", "-Q", COQ, "SE", "-w", "-notation-overridden,-extraction-opaque-accessed,-extraction-reserved-identifier",
-                           "-o", os.path.join(d, "Extract.vo"), ev], cwd=d, timeout=900)
-        if rc != 0:
-            ctx.broken.append({"kind": "correspondence", "name": "extract EVAL", "detail": out[-3000:]})
-            return None
-        vlib.sh(["cp", os.path.join(ROOT, "ocaml", "eval_main.ml"), os.path.join(d, "main.ml")])
-        vlib.sh(["cp", os.path.join(ROOT, "ocaml", "expr_io.ml"), os.path.join(d, "expr_io.ml")])
-        rc, out = vlib.sh(["ocamlfind", "ocamlopt", "-O3", "-w", "-a", "semodel.mli", "semodel.ml", "expr_io.ml", "main.ml",
-                           "-o", "model.tmp"], cwd=d, timeout=900)
-        if rc != 0:
-            ctx.broken.append({"kind": "correspondence", "name": "ocaml EVAL", "detail": out[-3000:]})
-            return None
-        os.replace(os.path.join(d, "model.tmp"), exe)
-    return exe
-
-
-def prepare(ctx, obligations):
-    """translator, Coq build, gate, proofs, driver, model.  Returns (driver, model)."""
+def prepare(ctx, proof_modules, obligations):
+    """translator, gate, proofs (make + obligations), driver, model.  Returns (driver, model)."""
     import time
     t = [time.time()]
 
@@ -121,15 +46,12 @@ def prepare(ctx, obligations):
         ctx.notes.append("stage %s: %.1fs" % (name, t[-1] - t[-2]))
     run_translator(ctx)
     lap("translate")
-    build_coq(ctx, existing(EVAL_MODEL), record_as="correspondence")
-    build_coq(ctx, existing(EVAL_PROOFS))
-    lap("coq-build")
     ctx.gate(["Base", "Eval", "C12", "C13"])
-    ctx.prove([], obligations)
-    lap("obligations")
+    ctx.prove(proof_modules, obligations)
+    lap("prove")
     drv = ctx.build_driver("eval_driver")
     lap("driver")
-    model = build_model(ctx)
+    model = ctx.build_model("EVAL" + vlib.TAG, "Eval/Extract.v", "eval_main.ml", "semodel", extra_ml=["expr_io.ml"])
     lap("model")
     return drv, model
 
